@@ -298,7 +298,7 @@ func (c *Conn) run(kind, sqlText string, args []interface{}, binary bool) (*resu
 				c.txn = nil
 			}
 			je.Err = fmt.Sprintf("injected %d", f.Num)
-			je.Seq = s.logf("DB c%d %s %s%s -> injected error %d", c.id, kind, oneLine(sqlText), fmtArgs(args), f.Num)
+			je.Seq = s.logf("DB c%d %s %s%s -> injected error %d", c.id, kind, oneLine(first(canonOrGroups(sqlText, args))), fmtArgs(second(canonOrGroups(sqlText, args))), f.Num)
 			je.InTxn = c.txn != nil && c.txn.explicit
 			s.journal(je)
 			s.mu.Unlock()
@@ -311,7 +311,7 @@ func (c *Conn) run(kind, sqlText string, args []interface{}, binary bool) (*resu
 			inTxn := c.txn != nil && c.txn.explicit
 			c.kill()
 			je.Err = "injected connection loss (statement not applied)"
-			je.Seq = s.logf("DB c%d %s %s -> connection lost before the statement", c.id, kind, oneLine(sqlText))
+			je.Seq = s.logf("DB c%d %s %s -> connection lost before the statement", c.id, kind, oneLine(first(canonOrGroups(sqlText, args))))
 			s.journal(je)
 			s.mu.Unlock()
 			if inTxn {
@@ -335,13 +335,13 @@ func (c *Conn) run(kind, sqlText string, args []interface{}, binary bool) (*resu
 		// the statement was applied but the reply is lost with the connection
 		c.kill()
 		je.Err = "injected connection loss after the statement was applied"
-		je.Seq = s.logf("DB c%d %s %s%s -> applied, then connection lost", c.id, kind, oneLine(sqlText), fmtArgs(args))
+		je.Seq = s.logf("DB c%d %s %s%s -> applied, then connection lost", c.id, kind, oneLine(first(canonOrGroups(sqlText, args))), fmtArgs(second(canonOrGroups(sqlText, args))))
 		s.journal(je)
 		return nil, mysql.ErrInvalidConn
 	}
 	if err != nil {
 		je.Err = err.Error()
-		je.Seq = s.logf("DB c%d %s %s%s -> %v", c.id, kind, oneLine(sqlText), fmtArgs(args), err)
+		je.Seq = s.logf("DB c%d %s %s%s -> %v", c.id, kind, oneLine(first(canonOrGroups(sqlText, args))), fmtArgs(second(canonOrGroups(sqlText, args))), err)
 	} else {
 		je.Affected, je.LastID, je.NRows = res.affected, res.lastID, len(res.rows)
 		je.StmtWrites = netWrites(res.writes)
@@ -349,7 +349,8 @@ func (c *Conn) run(kind, sqlText string, args []interface{}, binary bool) (*resu
 		if res.isQuery && je.Class == "meta" {
 			je.Seq = s.logq("DB c%d %s %s%s -> %d row(s)", c.id, kind, oneLine(sqlText), fmtArgs(args), len(res.rows))
 		} else if res.isQuery {
-			je.Seq = s.logf("DB c%d %s %s%s -> %d row(s)", c.id, kind, oneLine(sqlText), fmtArgs(args), len(res.rows))
+			lt, la := canonOrGroups(sqlText, args)
+			je.Seq = s.logf("DB c%d %s %s%s -> %d row(s)", c.id, kind, oneLine(lt), fmtArgs(la), len(res.rows))
 		} else {
 			je.Seq = s.logf("DB c%d %s %s%s -> affected %d", c.id, kind, oneLine(sqlText), fmtArgs(args), res.affected)
 		}
@@ -358,6 +359,63 @@ func (c *Conn) run(kind, sqlText string, args []interface{}, binary bool) (*resu
 	s.journal(je)
 	return res, err
 }
+
+// canonOrGroups puts the OR-ed "(col = ? and col = ?)" groups of a probe
+// query (and their arguments) into a fixed order for the log line: the
+// client builds them while walking a Go map of the table's indexes, so their
+// order is not a function of the seed. Only the text that goes into the
+// event log (and the trace hash) is changed, not the journal.
+func canonOrGroups(sqlText string, args []interface{}) (string, []interface{}) {
+	i := strings.Index(sqlText, " WHERE (")
+	if i < 0 || !strings.HasPrefix(strings.TrimSpace(sqlText), "SELECT * FROM ") || !strings.Contains(sqlText, ") OR (") && !strings.Contains(sqlText, ")  OR (") {
+		return sqlText, args
+	}
+	head, where := sqlText[:i+7], strings.TrimSpace(sqlText[i+7:])
+	if strings.Contains(where, " IN (") || strings.Contains(strings.ToUpper(where), "FOR UPDATE") {
+		return sqlText, args
+	}
+	parts := regexp.MustCompile(`\)\s+OR\s+\(`).Split(where, -1)
+	type grp struct {
+		text string
+		args []interface{}
+	}
+	var gs []grp
+	used := 0
+	for k, p := range parts {
+		p = strings.TrimSpace(p)
+		if k == 0 {
+			p = strings.TrimPrefix(p, "(")
+		}
+		if k == len(parts)-1 {
+			p = strings.TrimSuffix(strings.TrimSpace(p), ")")
+		}
+		n := strings.Count(p, "?")
+		if used+n > len(args) {
+			return sqlText, args
+		}
+		gs = append(gs, grp{strings.Join(strings.Fields(p), " "), args[used : used+n]})
+		used += n
+	}
+	if used != len(args) {
+		return sqlText, args
+	}
+	sort.SliceStable(gs, func(a, b int) bool {
+		if gs[a].text != gs[b].text {
+			return gs[a].text < gs[b].text
+		}
+		return fmt.Sprint(gs[a].args) < fmt.Sprint(gs[b].args)
+	})
+	var texts []string
+	var out []interface{}
+	for _, g := range gs {
+		texts = append(texts, "("+g.text+")")
+		out = append(out, g.args...)
+	}
+	return head + strings.Join(texts, " OR "), out
+}
+
+func first(a string, _ []interface{}) string         { return a }
+func second(_ string, b []interface{}) []interface{} { return b }
 
 func oneLine(s string) string {
 	s = strings.Join(strings.Fields(s), " ")
